@@ -172,6 +172,29 @@ func (fv *FnV) guardedAccess(st *State, v ssa.Value, pos token.Pos, mode string)
 	case *ssa.Global:
 		gd = fv.g.globalsDecl[x.Pkg.Pkg.Name()+"."+x.Name()]
 	default:
+		if gf, ok := fv.guardedFields[v]; ok {
+			props := mergeProps(fv.lockProps(), gf.decl.Props)
+			bp := fv.ptrOf(gf.base)
+			has := false
+			var mt types.Type
+			for i := 0; i < gf.st.NumFields(); i++ {
+				if gf.st.Field(i).Name() == gf.decl.Mutex {
+					has = true
+					mt = gf.st.Field(i).Type()
+				}
+			}
+			what := gf.decl.Struct + "." + gf.decl.Field
+			if !has {
+				o := fv.emit(st, "L", "guarded-field:"+what+":"+fv.siteText(pos, "index"), props, "false", "the mutex field "+gf.decl.Mutex+" that guards "+what+" exists", pos)
+				o.Static = "fails: " + gf.decl.Struct + " has no field " + gf.decl.Mutex
+				o.Script = ""
+				return
+			}
+			m := fv.ptrRef(fv.fieldPtr(bp, gf.typ, gf.decl.Mutex, mt))
+			held := not(eq(sel(fv.heapGet(st, "G|held"), m), "0"))
+			fv.emit(st, "L", "guarded-field:"+what+":"+fv.siteText(pos, "index"), props, held, mode+" of "+what+" happens with "+gf.decl.Mutex+" of the same object held", pos)
+			return
+		}
 		gd = fv.guardedVals[v]
 	}
 	if gd == nil || gd.Kind != "guarded_by" {
@@ -190,7 +213,74 @@ func (fv *FnV) guardedAccess(st *State, v ssa.Value, pos token.Pos, mode string)
 	fv.emit(st, "L", "guarded:"+gd.Name+":"+fv.siteText(pos, "index"), fv.lockProps(), held, mode+" of "+gd.Name+" happens with "+gd.Mutex+" held", pos)
 }
 
+// storage of a guarded captured slice: a value loaded from a captured variable that is `guarded x by m`, and every
+// re-slice of it, shares the variable's backing array; writing its elements (an element store, copy) needs m like the
+// variable itself - reserving slots under the lock and filling them after the unlock loses them when another worker's
+// append moves the array in between.
+func (fv *FnV) sharedStorage(v ssa.Value) (string, bool) {
+	name, ok := fv.guardedSlices[v]
+	return name, ok
+}
+
+func (fv *FnV) markSharedStorage(v ssa.Value, from ssa.Value) {
+	if fv.k == nil || len(fv.k.GuardedFree) == 0 {
+		return
+	}
+	if _, isSlice := v.Type().Underlying().(*types.Slice); !isSlice {
+		return
+	}
+	name := ""
+	if fvr, ok := from.(*ssa.FreeVar); ok {
+		if _, guarded := fv.k.GuardedFree[fvr.Name()]; guarded {
+			name = fvr.Name()
+		}
+	} else if n, ok := fv.guardedSlices[from]; ok {
+		name = n
+	}
+	if name == "" {
+		return
+	}
+	if fv.guardedSlices == nil {
+		fv.guardedSlices = map[ssa.Value]string{}
+	}
+	fv.guardedSlices[v] = name
+}
+
+// sharedStorageWrite: the elements of a guarded captured slice are written with its mutex held.
+func (fv *FnV) sharedStorageWrite(st *State, v ssa.Value, pos token.Pos, how string) {
+	name, ok := fv.sharedStorage(v)
+	if !ok {
+		return
+	}
+	mn := fv.k.GuardedFree[name]
+	for _, f := range fv.fn.FreeVars {
+		if f.Name() == mn {
+			m := fv.term(fv.val(f))
+			held := not(eq(sel(fv.heapGet(st, "G|held"), m), "0"))
+			fv.emit(st, "L", "guarded-storage:"+name+":"+fv.siteText(pos, "call"), fv.lockProps(), held, how+" into the storage of the shared slice "+name+" happens with "+mn+" held", pos)
+			return
+		}
+	}
+}
+
 func (fv *FnV) markGuarded(v ssa.Value, from ssa.Value) {
+	// a value loaded from a struct field that is declared `field S.f guarded_by m`
+	if fa, ok := from.(*ssa.FieldAddr); ok && len(fv.g.fieldsDecl) > 0 {
+		if pt, ok := fa.X.Type().Underlying().(*types.Pointer); ok {
+			if st, ok := pt.Elem().Underlying().(*types.Struct); ok {
+				name := structName(st)
+				if nt, ok := types.Unalias(pt.Elem()).(*types.Named); ok {
+					name = nt.Obj().Name()
+				}
+				if fd := fv.g.fieldsDecl[name+"."+st.Field(fa.Field).Name()]; fd != nil {
+					if fv.guardedFields == nil {
+						fv.guardedFields = map[ssa.Value]guardedField{}
+					}
+					fv.guardedFields[v] = guardedField{decl: fd, base: fa.X, st: st, typ: pt.Elem()}
+				}
+			}
+		}
+	}
 	if g, ok := from.(*ssa.Global); ok {
 		if gd := fv.g.globalsDecl[g.Pkg.Pkg.Name()+"."+g.Name()]; gd != nil && gd.Kind == "guarded_by" {
 			if fv.guardedVals == nil {
